@@ -10,7 +10,9 @@ blocks = re.split(r'^=== ', log, flags=re.M)[1:]
 res = {}
 for b in blocks:
     head, _, rest = b.partition('\n')
-    pid, x = head.split(':')[0].split()
+    if len(head.split(":")[0].split()) != 2:
+        continue
+    pid, x = head.split(":")[0].split()
     demo = re.search(r'demo: clean exit=(\d+) patched exit=(\d+)', rest)
     viol = re.findall(r'VIOLATION property=(\S+) replay=(\S+)', rest)
     final = re.search(r'^(C\d+ tier=.*)$', rest, flags=re.M)
